@@ -60,7 +60,7 @@ func (ex *Exec) findCtx(recv Val, args []Val) *CtxV {
 }
 
 func (ex *Exec) callExternal(fr *Frame, name string, sig *types.Signature, recv Val, args []Val, st *State, call *ssa.Call) []Result {
-	one := func(v Val) []Result { return []Result{{st, v, nil}} }
+	one := func(v Val) []Result { return []Result{{st: st, ret: v}} }
 	short := shortCallee(name)
 	method := short
 	if j := strings.LastIndex(short, "."); j >= 0 {
@@ -470,7 +470,7 @@ func pbTag(t types.Type, codec string) string {
 }
 
 func (ex *Exec) marshal(st *State, short, method string, sig *types.Signature, recv Val, args []Val, call *ssa.Call) []Result {
-	one := func(v Val) []Result { return []Result{{st, v, nil}} }
+	one := func(v Val) []Result { return []Result{{st: st, ret: v}} }
 	// value being encoded: receiver (x.Marshal()) or first argument (cdc.MustMarshal(&x))
 	var v Val
 	var vt types.Type
@@ -540,7 +540,7 @@ func (ex *Exec) marshal(st *State, short, method string, sig *types.Signature, r
 }
 
 func (ex *Exec) unmarshal(st *State, short, method string, sig *types.Signature, recv Val, args []Val, call *ssa.Call) []Result {
-	one := func(v Val) []Result { return []Result{{st, v, nil}} }
+	one := func(v Val) []Result { return []Result{{st: st, ret: v}} }
 	isCodec := strings.Contains(short, "Codec)") || strings.Contains(short, "codec.") || strings.Contains(short, "Marshaler)")
 	var target Val
 	var bz *Term
@@ -636,7 +636,7 @@ func fromStore(b *Term) bool {
 // ---------------------------------------------------------------- sort.Slice
 
 func (ex *Exec) sortSlice(fr *Frame, st *State, args []Val, call *ssa.Call, stable bool) []Result {
-	one := func(v Val) []Result { return []Result{{st, v, nil}} }
+	one := func(v Val) []Result { return []Result{{st: st, ret: v}} }
 	iv, ok := args[0].(*IfaceV)
 	if !ok {
 		ex.unsupp("sort.Slice on unknown value")
